@@ -38,6 +38,9 @@ C_MAKE = clause('support.make_up_callsigs', 'post:all_prefixes_times_subsets', [
 R_NATIVE = clause('support.s', 'rt:roundtrip_native', ['C20'], 'R')
 R_MODS = clause('support.s', 'rt:roundtrip_modifiers', ['C20'], 'R')
 R_FUNC = clause('support.f', 'rt:func_returns_arguments', ['C20'], 'R')
+R_NS = clause('support.make_func', 'rt:caller_namespace_wins', ['C20'], 'R',
+              'every name of the signature text resolves in the caller-supplied globals / locals, also a name the helper itself puts into the '
+              'namespace of the function it builds (native spelling: no decorator is involved)')
 
 
 def _call_shape(names_in, keys, nargs):
@@ -78,6 +81,8 @@ def make_runner(mode, shape=None, nargs=0, nkeys=0, want=None, extra=2):
             # tier R: the REAL functions run natively over one slice of the enumerated universe
             uni = rt_universe()
             env['cases'] = [rt_case(specs, ret) for specs, ret in uni[shape[0]::shape[1]]]
+            if shape[0] == 0:
+                env['cases'].append(rt_namespace())
             r.outcome, r.value = 'return', None
             return
         info = mk_sig(I, ctx, 's', shape, tracked=False, annotations=False)
@@ -164,7 +169,7 @@ def vcs(env, want):
         return want is None or any(p in want for p in c.props)
     if mode == 'roundtrip':
         for text, bad in env['cases']:
-            for c in (R_NATIVE, R_MODS, R_FUNC):
+            for c in (R_NATIVE, R_MODS, R_FUNC, R_NS):
                 if on(c):
                     mine = [d for n, d in bad if n == c.name]
                     v = VC(c.full + ':(' + text + ')', [], z3.BoolVal(not mine), c.props)
@@ -346,6 +351,39 @@ def _sig_data(sig, kwo_as_set=False):
     if kwo_as_set:
         ps = [p for p in ps if p[1] != KWO] + sorted(p for p in ps if p[1] == KWO)
     return ps, (sig.return_annotation if sig.return_annotation is not inspect.Signature.empty else '<none>')
+
+
+def rt_namespace():
+    """runtime contract of the namespace handling of s / f: caller-supplied names win"""
+    import warnings
+    from vf.concrete import real_sigtools
+    real_sigtools()
+    from sigtools import support
+    bad = []
+    with warnings.catch_warnings():
+        warnings.simplefilter('ignore')
+        injected = [k for k in getattr(support.f('a'), '__globals__', {}) if not k.startswith('__') and k != 'func']
+        for name in injected + ['some_name_of_the_caller']:
+            marker = object()
+            for how in ('globals', 'locals'):
+                for future in ((), ('annotations',)):
+                    if future and how == 'locals':
+                        continue        # CPython itself: a postponed annotation is evaluated in the function's globals, never in the locals exec() ran with
+                    try:
+                        sig = support.s('a: %s, b=%s' % (name, name), name, future_features=future, **{how: {name: marker}})
+                        if future:
+                            sig = sig.evaluated()
+                        got = (sig.parameters['a'].annotation, sig.parameters['b'].default, sig.return_annotation)
+                        if not all(x is marker for x in got):
+                            bad.append((R_NS.name, "s('a: %s, b=%s', '%s', %s={'%s': <marker>}, future=%r): annotation / default / return annotation are %r"
+                                        % (name, name, name, how, name, future, got)))
+                        fn = support.f('a=%s' % name, **{how: {name: marker}})
+                        res = fn()
+                        if not (isinstance(res, dict) and res.get('a') is marker):
+                            bad.append((R_NS.name, "f('a=%s', %s={'%s': <marker>})() = %r" % (name, how, name, res)))
+                    except Exception as e:
+                        bad.append((R_NS.name, 'name %r supplied through %s=: raises %r' % (name, how, e)))
+    return 'caller namespace', bad
 
 
 def rt_case(specs, ret):
